@@ -93,7 +93,7 @@ def fault_classes(spec, thread):
     out, counts = [], {}
     w = None
     for t in sc.threads[thread]:
-        r = engine_f.run_call(root, sc.init_tree, P, t, ctx())
+        r = engine_f.run_call(root, sc.init_tree, P11 if spec.get("p") == "1x1" else P, t, ctx())
         for op in r.sites:
             if engine_f.is_fault_site(op):
                 k = engine_f.site_class(op)
